@@ -79,8 +79,9 @@ class Undecidable(AnalysisError):
 
 
 class TermAlg:
-    def __init__(self, prog: Program):
+    def __init__(self, prog: Program, stubs: Optional[Dict[str, Any]] = None):
         self.prog = prog
+        self.stubs = stubs or {}
         self.depth = 0
         self.fstack: List[FuncInfo] = []
 
@@ -92,6 +93,8 @@ class TermAlg:
     # ------------------------------------------------------------ calls
     def call(self, fi: FuncInfo, pos: List[Any], kw: Optional[Dict[str, Any]] = None, self_val: Any = None) -> Any:
         kw = kw or {}
+        if fi.key in self.stubs:
+            return self.stubs[fi.key](self, pos, kw)
         if self.depth > 12:
             raise AnalysisError("kernel inlining too deep at %s" % fi.key)
         env: Dict[str, Any] = {}
